@@ -40,7 +40,8 @@ fn exec(case: &[Tok]) -> Vec<Tok> {
     let g = exec_one::<GuestAddress>(op, a, b, c);
     let r = exec_one::<MemoryRegionAddress>(op, a, b, c);
     if g != r {
-        return vec![n(9u8), n(0u8), n(0u8)];
+        // kind 9; the value GuestAddress gave, the value MemoryRegionAddress gave (for the reader of a replay)
+        return vec![n(9u8), n(g[1].u()), n(r[1].u())];
     }
     g
 }
